@@ -13,7 +13,7 @@ import (
 )
 
 // C18: frames are isolated under any growth.
-// Part A (3 runs in 4): operation histories on the real memory package against a model (package c18a).
+// Part A (3 runs in 4), part C (1 run in 16, escaping closures, below): operation histories on the real memory package against a model (package c18a).
 // Part B: calc programs with wide frames and deep recursion whose results have closed forms.
 type C18 struct{}
 
@@ -28,7 +28,7 @@ func (C18) Runs(t core.Tier) int {
 	return 120_000
 }
 func (C18) Rule() string {
-	return "Part A (3 of 4 runs): " + c18a.Rule() + " Part B (1 of 4 runs): one calc session in which a function with w locals (w drawn around 0,1,127,128,129,255,256,300) writes a distinct value to each local, then runs a tape-chosen middle section (deep recursion growing the stack above the live frame, loops whose iterator reads the last local after an earlier small loop in the same statement so the fork recycles a smaller context, nested wide calls, closures and generators reading the locals after growth) and returns all its locals as an array; the result must equal the closed form. Non-trivial (B) = the stack was relocated while a call frame was live, or a fork reused a recycled context. Distinct = hash of the operation list (A) or of the program shape, widths and depths (B)."
+	return "Part A (3 of 4 runs): " + c18a.Rule() + " Part B (3 of 16 runs): one calc session in which a function with w locals (w drawn around 0,1,127,128,129,255,256,300) writes a distinct value to each local, then runs a tape-chosen middle section (deep recursion growing the stack above the live frame, loops whose iterator reads the last local after an earlier small loop in the same statement so the fork recycles a smaller context, nested wide calls, closures and generators reading the locals after growth) and returns all its locals as an array; the result must equal the closed form. Part C (1 of 16 runs): escaping closures: a function value outlives the activation or iterator context whose variables it captured (yielded by a generator and returned out of the consuming loop; returned by its maker; closure of closure; created in a loop body; handed down and called deeper; two closures of one maker looping over their captured bound; multi-variable loops whose variables partly exist), other loops, zips, deep recursion and wide calls then reuse stack space and contexts in the same statement or later ones, and the closure is called again: closed-form result. Non-trivial (B) = the stack was relocated while a call frame was live, or a fork reused a recycled context. Distinct = hash of the operation list (A) or of the program shape, widths and depths (B)."
 }
 func (C18) Assumptions() []string {
 	return append(c18a.Assumptions(),
@@ -45,11 +45,16 @@ func (C18) StubComponents() []string {
 var widths = []int{0, 1, 2, 3, 5, 17, 64, 126, 127, 128, 129, 130, 200, 255, 256, 257, 300}
 
 func (C18) Run(tp *tape.Tape) core.Result {
-	if tp.Draw(4) != 3 {
-		r := c18a.RunHistory(tp)
-		return r
+	switch tp.Draw(8) {
+	case 6:
+		return c18b(tp)
+	case 7:
+		if tp.Bool() {
+			return c18c(tp)
+		}
+		return c18b(tp)
 	}
-	return c18b(tp)
+	return c18a.RunHistory(tp)
 }
 
 func c18b(tp *tape.Tape) core.Result {
@@ -246,5 +251,168 @@ func (C18) RunScript(raw json.RawMessage) core.Result {
 	if last.Kind != sess.KValue || last.Val != sc.Want[0] {
 		r.Violation = &core.Violation{Clause: "B.locals-after-growth", Detail: fmt.Sprintf("got %s, want %s\n%s", last.Brief(), sc.Want[0], trunc(last.Report, 500)), History: h}
 	}
+	return r
+}
+
+// ---------------------------------------------------------------- part C: escaping closures
+
+// c18c: a function value outlives the activation (or the iterator context) whose variables it
+// captured, other work then reuses the stack space and the contexts, and the closure is called
+// again. Every program has a closed-form result. No captured variable is reassigned after capture
+// (finding K3) and no closure travels inside an array (finding K4).
+func c18c(tp *tape.Tape) core.Result {
+	var r core.Result
+	h := &Hist{Flavour: "repl", Notes: "part C: escaping closures"}
+	s := sess.New()
+	s.TrackSP = true
+	s.Budget = 20_000_000
+	key := core.NewHash().Str("C")
+	trace := core.NewHash()
+	k := 2 + tp.Draw(40)
+	pad := func(n int) string {
+		var b strings.Builder
+		for i := 0; i < n; i++ {
+			fmt.Fprintf(&b, "%s = %d\n", gen.PadName(i), 500+i)
+		}
+		return b.String()
+	}
+	w := []int{0, 0, 3, 60, 126, 127, 128, 130, 260}[tp.Draw(9)]
+	// work done between creating the closure and calling it again
+	mids := []string{
+		"sa = 0\nfor i <- fromto(100, 103) {\nsa = sa + i\n}",
+		"sb = 0\nfor i, j <- fromto(0, 5), elems(\"ab\") {\nsb = sb + i\n}",
+		"sc = deep(300)",
+		"sd = first(other)",
+		"se = 0\nfor i <- fromto(0, 3) {\nfor j <- fromto(0, 2) {\nse = se + i * j\n}\n}",
+		"sf = wide()",
+		"sg = 0\nfor v <- map((x) -> x * 2, () -> fromto(0, 4)) {\nsg = sg + v\n}",
+	}
+	drawMid := func() string {
+		n := tp.Draw(4)
+		var out []string
+		for i := 0; i < n; i++ {
+			m := tp.Draw(len(mids))
+			key = key.Int(m)
+			out = append(out, mids[m])
+		}
+		return strings.Join(out, "\n")
+	}
+	defs := []string{
+		gen.PreludeSrc[0],
+		"map = (f, it) -> for e <- it() yield f(e)",
+		"first = (g) -> for f <- g() return f",
+		"other = () -> {\nb = [7, 8, 9]\nyield #b\n}",
+		"wide = () -> {\n" + pad(140) + "deep(20)\n}",
+	}
+	var stmts []string // top-level statements after the definitions; the last one's value is checked
+	var want string
+	tpl := tp.Draw(7)
+	key = key.Int(tpl).Int(w)
+	switch tpl {
+	case 0: // a generator yields a closure over its local; the consumer returns it out of the loop
+		capt, res := fmt.Sprintf("k = %d", k), "k + 1"
+		wantOne := fmt.Sprint(k + 1)
+		if tp.Bool() {
+			capt, res, wantOne = fmt.Sprintf("k = [%d, 2, 3]", k), "k", fmt.Sprintf("[%d, 2, 3]", k)
+		}
+		defs = append(defs, "gn = () -> {\n"+pad(w)+capt+"\nyield () -> "+res+"\n}")
+		m1, m2 := drawMid(), drawMid()
+		defs = append(defs, "main = () -> {\nh = first(gn)\nba = toa(h())\n"+m1+"\nbb = toa(h())\n"+m2+"\nbc = toa(h())\nba + \"|\" + bb + \"|\" + bc\n}")
+		stmts = []string{"main()"}
+		want = `"` + wantOne + "|" + wantOne + "|" + wantOne + `"`
+		r.Inc("C.yielded_closure_returned_from_loop", 1)
+	case 1: // closure returned from its maker, history in later statements
+		defs = append(defs, "mk = (v) -> {\nx = v * 2\n"+pad(w)+"(y) -> x + y\n}")
+		stmts = []string{fmt.Sprintf("h = mk(%d)", k), "h(1)"}
+		for i := tp.Draw(3); i > 0; i-- {
+			stmts = append(stmts, "{\n"+mids[tp.Draw(len(mids))]+"\n}", "h(1)")
+		}
+		want = fmt.Sprint(2*k + 1)
+		r.Inc("C.closure_returned_by_maker", 1)
+	case 2: // closures of closures (the Readme's explicit-copy idiom)
+		defs = append(defs, "f = (x) -> (y) -> {\nx = x\n(z) -> x + y + z\n}")
+		stmts = []string{fmt.Sprintf("s = f(%d)", k), "t = s(2)", "{\n" + drawMid() + "\nt(3)\n}", "t(3)"}
+		want = fmt.Sprint(k + 5)
+		r.Inc("C.closure_of_closure", 1)
+	case 3: // closure created in a loop body and returned from there; captures the loop variable
+		defs = append(defs, "pick = (n) -> {\n"+pad(w)+"for i <- fromto(0, 10) {\nif i == n {\nreturn (q) -> q * 10 + i\n}\n}\n0\n}",
+			"main = (n) -> {\nh = pick(n)\nba = h(2)\n"+drawMid()+"\nbb = h(2)\n[ba, bb]\n}")
+		n := tp.Draw(9)
+		stmts = []string{fmt.Sprintf("main(%d)", n)}
+		want = fmt.Sprintf("[%d, %d]", 20+n, 20+n)
+		r.Inc("C.closure_created_in_loop_body", 1)
+	case 4: // closure handed down and called deeper, after the stack grew (no escape)
+		d := []int{0, 1, 5, 64, 127, 128, 300}[tp.Draw(7)]
+		defs = append(defs, "app = (f, d) -> if d <= 0 {\nf(1)\n} else {\napp(f, d - 1)\n}",
+			fmt.Sprintf("outer = (v) -> {\nx = v\n%sg = (y) -> x + y\nra = deep(150)\napp(g, %d)\n}", pad(w), d))
+		stmts = []string{fmt.Sprintf("outer(%d)", k), "{\n" + drawMid() + "\nouter(" + fmt.Sprint(k) + ")\n}"}
+		want = fmt.Sprint(k + 1)
+		r.Inc("C.closure_called_deeper", 1)
+	case 5: // two closures of one maker, each running a loop over its captured bound, in one statement
+		defs = append(defs, "mk = (n) -> () -> {\ns = 0\nfor i <- fromto(0, n) {\ns = s + 1\n}\ns\n}")
+		stmts = []string{"a = mk(3)", fmt.Sprintf("b = mk(%d)", k), "[a(), b(), a()]", "{\n" + drawMid() + "\n[a(), b(), a(), b()]\n}"}
+		want = fmt.Sprintf("[3, %d, 3, %d]", k, k)
+		r.Inc("C.two_closures_looping_over_captured_bound", 1)
+	default: // a multi-variable loop whose variables partly exist already, locals assigned after it
+		defs = append(defs, fmt.Sprintf("zl = (za, n) -> {\nzs = 0\n%sfor za, zb <- fromto(0, n), fromto(10, 10 + n) {\nzs = zs + za + zb\n}\nzd = 77\nfor ze, zs <- fromto(0, 2), fromto(5, 9) {\nzf = ze\n}\nzg = 88\n[za, zb, zs, zd, ze, zf, zg, n]\n}", pad(w)))
+		n := 1 + tp.Draw(5)
+		stmts = []string{fmt.Sprintf("zl(%d, %d)", k, n)}
+		want = fmt.Sprintf("[%d, %d, 6, 77, 1, 1, 88, %d]", n-1, 10+n-1, n)
+		r.Inc("C.loop_variables_partly_existing", 1)
+	}
+	depth := []int{0, 0, 1, 6, 64, 128}[tp.Draw(6)]
+	if depth > 0 {
+		last := stmts[len(stmts)-1]
+		if !strings.HasPrefix(last, "{") {
+			g := gen.New(tp)
+			def, c := g.DeepCall(last, depth)
+			defs = append(defs, def)
+			stmts[len(stmts)-1] = c
+		}
+	}
+	key = key.Int(depth)
+	run := func(src string) (sess.Outcome, bool) {
+		h.add(src)
+		outs := s.Submit(src+"\n", true)
+		r.Statements++
+		o := outs[len(outs)-1]
+		r.Instructions += o.Steps
+		trace = trace.Str(o.Kind).Str(o.Val).Str(o.Err)
+		if o.Kind == sess.KPanic {
+			r.Violation = panicViolation("C.panic", o, h)
+			return o, true
+		}
+		return o, false
+	}
+	var last sess.Outcome
+	for _, d := range defs {
+		if o, stop := run(d); stop || o.Kind != sess.KValue {
+			if !stop {
+				r.Discard = "definition failed: " + o.Brief()
+			}
+			goto done
+		}
+	}
+	for _, st := range stmts {
+		o, stop := run(st)
+		if stop {
+			goto done
+		}
+		if o.Kind != sess.KValue {
+			r.Violation = &core.Violation{Clause: "C.statement-failed", Detail: fmt.Sprintf("%s ended with %s\n%s", trunc(st, 80), o.Brief(), trunc(o.Report, 500)), History: h}
+			goto done
+		}
+		last = o
+	}
+	if last.Val != want {
+		r.Violation = &core.Violation{Clause: "C.escaped-closure-value", Detail: fmt.Sprintf("got %s, want %s", last.Val, want), History: h}
+	}
+done:
+	mergeProbes(&r, s)
+	r.NonTrivial = true
+	r.Key = uint64(key)
+	r.Interleaving = uint64(trace)
+	r.TraceHash = uint64(trace)
+	r.Sample = h
 	return r
 }
